@@ -169,13 +169,15 @@ PROPS = {
         'level_note': 'Trusted: the simulator (sim/), the hook placement in callbacklist.h, sequential consistency. Not modelled: weak memory orderings, preemption inside shared_ptr/std::function internals, heterogeneous listener lists.',
         'stages': [
             {'name': 'c03', 'bin': 'con_list', 'mode': 'c03', 'runs': {'quick': 240000, 'thorough': 6000000}, 'time': {'quick': 100, 'thorough': 900}},
+            {'name': 'c03-heterogeneous', 'bin': 'con_list', 'mode': 'c03h', 'runs': {'quick': 80000, 'thorough': 2000000}, 'time': {'quick': 60, 'thorough': 600}},
         ],
         'rule': 'Each evaluation is one simulated execution of a seeded plan (2-4 tasks x 2-5 operations on one CallbackList or EventDispatcher, '
                 'std::map or std::unordered_map, SimMutex or the real SpinLock) under one seeded schedule (random walk / PCT / bounded preemption). '
                 'Non-trivial = at least one preemption landed inside another task\'s library operation; distinct = distinct hashes of the '
-                '(task, scheduling-point tag) sequence at task switches.',
+                '(task, scheduling-point tag) sequence at task switches. The second stage runs the same plans and oracles on HeterCallbackList / HeterEventDispatcher with two prototypes '
+                '(a model "event" is a (key, prototype) pair): their own mutexes and map are simulated, the per-prototype lists inside are hard-wired to std::mutex and count as atomic steps.',
         'real_vs_stub': REAL_STUB_CON,
-        'assumptions': CON_ASSUMPTIONS + ['Concurrent mutation of heterogeneous listener lists and of MixinFilter filter lists is not simulated (their mutex is hard-wired to std::mutex).'],
+        'assumptions': CON_ASSUMPTIONS + ['Inside the heterogeneous classes and MixinFilter the per-prototype / filter CallbackLists are hard-wired to default policies (std::mutex): their critical sections are atomic steps of the simulation, so only the heterogeneous layer itself (lazy creation of a prototype\'s list, the event map, handles crossing prototypes) is explored under the scheduler; concurrent mutation of MixinFilter filter lists is not simulated.'],
         'extra_coverage': con_extra(['c03']),
     },
     'C06': {
